@@ -381,7 +381,7 @@ package wire
 //@   ensures [alloc-bound] {C04} #maxalloc <= max(old(#maxalloc), max(max(r.reader.Reader.MaxMessageSize, 4096), 16 * 65535))
 //@   atreturn [count-mismatch-error] {C14} (len(r.reader.Reader.Msg) >= 0 && fields != len(r.scanners) && fields != 65535) ==> err != nil
 //@   atreturn [trailer-eof] {C14} fields == 65535 ==> err == io.EOF
-//@   atreturn [field-spans-messages] {C14} (err != nil && arr(value) == 0 && len(r.reader.Reader.Msg) < length) ==> #nIn > old(#nIn) + (old(len(r.reader.Reader.Msg)) == 0 ? 1 : 0)
+//@   ensures [field-spans-messages] {C14} #shortReads > old(#shortReads) ==> #nIn > old(#nIn) + (old(len(r.reader.Reader.Msg)) == 0 ? 1 : 0)
 //@   callsite callback:wire.Scanner [own-scanner] {C14} $0 == r.scanners[$n] && arr($value) == arr(r.reader.Reader.Msg) && off($value) + len($value) == off(r.reader.Reader.Msg)
 //@   modifies r.reader.Reader.Buffer.#pos, arrayof(r.reader.Reader.header), r.reader.Reader.Msg, memtail(r.reader.Reader.Msg), #maxalloc, #nalloc, #nIn, #lastIn, #nScan
 //@   loop 0
